@@ -99,3 +99,140 @@ def misuse(payload):
             if any(alive):
                 return {"status": "fail", "cases": cases, "detail": f"faults {faults}: worker processes still alive after close: {alive}"}
     return {"status": "pass", "cases": cases}
+
+
+def faults(payload):
+    """close() after worker faults; the exception type that reaches the caller; the interface after a timeout.
+    Every scenario runs under a watchdog thread; workers are killed at the end of each scenario."""
+    import time
+    import warnings
+    import gymnasium
+    from agilerl.vector.pz_async_vec_env import AsyncPettingZooVecEnv
+    from replays.faultenv import ACTION_LIST, ACTIONS, TwoArgError, Watchdog, kill_all, make
+    gymnasium.logger.min_level = 50
+    warnings.filterwarnings("ignore")
+    PROMPT = 4.0
+    cases = 0
+    only = payload.get("only")
+
+    def vec3(fault, who=1):
+        fns = [make(fault if i == who else None) for i in range(3)]
+        return AsyncPettingZooVecEnv(fns)
+
+    def closed_ok(vec, **kw):
+        w = Watchdog(lambda: vec.close(**kw), PROMPT)
+        time.sleep(0.3)
+        alive = [p.is_alive() for p in vec.processes]
+        bad = None
+        if w.hung:
+            bad = f"close({kw}) did not return within {PROMPT}s"
+        elif w.exc is not None:
+            bad = f"close({kw}) raised {type(w.exc).__name__}: {w.exc}"
+        elif any(alive):
+            bad = f"close({kw}) returned but workers alive = {alive}"
+        kill_all(vec)
+        return bad
+    scenarios = []
+    # (key, description, runner) - runner returns None or a failure text
+    def s_pending_error(term):
+        vec = vec3(dict(cmd="step", at=0, kind="raise"))
+        vec.reset()
+        vec.step_async(ACTION_LIST(3))
+        time.sleep(0.5)
+        return closed_ok(vec, **({"terminate": True} if term else {}))
+    scenarios += [("close-pending-error", "worker 1 raises in step; close() while the step is pending", lambda: s_pending_error(False)),
+                  ("close-pending-error", "worker 1 raises in step; close(terminate=True) while the step is pending", lambda: s_pending_error(True))]
+
+    def s_exc_type(exc, name):
+        vec = vec3(dict(cmd="step", at=0, kind="raise", exc=exc))
+        vec.reset()
+        w = Watchdog(lambda: vec.step(ACTIONS(3)), PROMPT)
+        bad = None
+        if w.hung:
+            bad = f"step() hung after the worker raised {name}"
+        elif type(w.exc).__name__ != name:
+            bad = f"worker raised {name}, the caller received {type(w.exc).__name__}: {w.exc}"
+        bad = bad or closed_ok(vec)
+        kill_all(vec)
+        return bad
+    scenarios += [("exception-type", "worker raises UnicodeDecodeError (5-argument constructor)",
+                   lambda: s_exc_type(lambda: UnicodeDecodeError("utf-8", b"x", 0, 1, "bad"), "UnicodeDecodeError")),
+                  ("exception-type", "worker raises a user exception with a two-argument constructor", lambda: s_exc_type(lambda: TwoArgError(7, "seven"), "TwoArgError")),
+                  ("exception-type", "worker raises ValueError", lambda: s_exc_type(lambda: ValueError("boom"), "ValueError"))]
+
+    def s_timeout_then_close():
+        vec = vec3(dict(cmd="step", at=0, kind="sleep", secs=30.0))
+        vec.reset()
+        vec.step_async(ACTION_LIST(3))
+        try:
+            vec.step_wait(timeout=0.2)
+            return "step_wait(timeout=0.2) returned although worker 1 sleeps 30 s"
+        except Exception as e:
+            if type(e).__name__ != "TimeoutError":
+                kill_all(vec)
+                return f"timeout reported as {type(e).__name__}"
+        return closed_ok(vec, timeout=0.5)
+    scenarios.append(("timeout-close", "worker 1 sleeps 30 s in step; step_wait times out; close(timeout=0.5)", s_timeout_then_close))
+
+    def s_timeout_then_call():
+        vec = vec3(dict(cmd="step", at=0, kind="sleep", secs=1.0))
+        vec.reset()
+        vec.step_async(ACTION_LIST(3))
+        try:
+            vec.step_wait(timeout=0.1)
+        except Exception:
+            pass
+        time.sleep(1.5)
+        bad = None
+        try:
+            r = vec.call("ping")
+            if tuple(r) != ("pong", "pong", "pong"):
+                bad = f"after a timed-out step, call('ping') returned a stale reply: {str(r)[:120]}"
+        except Exception as e:
+            if type(e).__name__ != "AlreadyPendingCallError":
+                bad = f"after a timed-out step, call('ping') raised {type(e).__name__}"
+        bad = bad or closed_ok(vec, timeout=1.0)
+        kill_all(vec)
+        return bad
+    scenarios.append(("timeout-stale", "worker 1 is 1 s late; step_wait times out; call('ping') afterwards", s_timeout_then_call))
+
+    def s_killed(where, who):
+        vec = vec3(dict(cmd="step", at=0, kind="kill") if where == "step" else None, who)
+        vec.reset()
+        if where == "step":
+            w = Watchdog(lambda: vec.step(ACTIONS(3)), PROMPT)
+            if w.hung:
+                kill_all(vec)
+                return "step() hung after a worker was killed"
+        else:
+            vec.processes[who].kill()
+            time.sleep(0.3)
+        return closed_ok(vec)
+    scenarios += [("killed-worker", "worker 1 SIGKILLed inside step; close()", lambda: s_killed("step", 1)),
+                  ("killed-worker", "worker 0 SIGKILLed inside step; close()", lambda: s_killed("step", 0)),
+                  ("killed-worker", "worker 1 killed while idle; close()", lambda: s_killed("idle", 1))]
+    def s_unpicklable(exc, name):
+        # the type cannot cross the process boundary: it must still surface as an error (no hang) and leave close() working
+        vec = vec3(dict(cmd="step", at=0, kind="raise", exc=exc))
+        vec.reset()
+        w = Watchdog(lambda: vec.step(ACTIONS(3)), PROMPT)
+        bad = None
+        if w.hung:
+            bad = f"step() hung after the worker raised {name}"
+        elif w.exc is None:
+            bad = f"step() returned although the worker raised {name}"
+        if bad:
+            kill_all(vec)
+            return bad
+        return closed_ok(vec)
+    from replays.faultenv import CallbackError, FormattedError
+    scenarios += [("unpicklable-exception", "worker raises an exception that cannot be rebuilt from its pickle", lambda: s_unpicklable(lambda: FormattedError(3, "x"), "FormattedError")),
+                  ("unpicklable-exception", "worker raises an exception holding a lambda", lambda: s_unpicklable(lambda: CallbackError("cb"), "CallbackError"))]
+    for key, what, run in scenarios:
+        if only and key != only:
+            continue
+        cases += 1
+        bad = run()
+        if bad:
+            return {"status": "fail", "cases": cases, "witness_key": key, "detail": f"{what}: {bad}", "input": {"scenario": what}}
+    return {"status": "pass", "cases": cases}
